@@ -86,6 +86,7 @@ func main() {
 	harness.ProbeFile = *catFile
 	harness.InitHarness()
 	if *probeOut != "" {
+		harness.ProbeCosts()
 		if err := harness.Cat.WriteProbe(*probeOut); err != nil {
 			fmt.Fprintln(os.Stderr, "simc19:", err)
 			os.Exit(2)
